@@ -1,5 +1,6 @@
 """C16 — argument history is a faithful, ordered log of edits."""
 
+import threading
 import contextlib
 import copy
 
@@ -35,7 +36,7 @@ RULE = (
 ASSUMPTIONS = [
     'the argument state after each edit is judged by C03; C16 compares the log with the actual stored state',
     'unchanged-but-rewritten keys may log 0 or 1 entry',
-    'thread clause of the property is decided in C19',
+    'thread clause: ops marked thread run in a fresh thread that is started and joined (sequential program order); arbitrary interleavings are decided in C19',
 ]
 BUDGET = {'quick': 16 * 1200, 'thorough': 16 * 12000}
 FLOORS = {'varargs_shift': 0.15, 'suspended_edit': 0.25, 'tag_edit': 0.4}
@@ -103,6 +104,8 @@ def strategy_(draw, tier):
         k = len(range(*slice(f(sl[0]), f(sl[1]), sl[2]).indices(n)))
         cnt = draw(st.sampled_from([k, k, k + 1, max(0, k - 1), 0]))
         op['vals'] = [val() for _ in range(cnt)]
+    if kind not in ('suspend_enter', 'suspend_exit') and draw(st.floats(0, 1)) < 0.15:
+      op['thread'] = True   # executed by a fresh thread (started and joined: program order is kept)
     ops.append(op)
     # advance the operand model (best effort)
     try:
@@ -180,6 +183,22 @@ def _do_op(cfgs, op, stack):
       stack.pop().__exit__(None, None, None)
 
 
+def _in_thread(fn):
+  box = []
+
+  def run():
+    try:
+      fn()
+    except BaseException as e:  # pylint: disable=broad-except
+      box.append(e)
+
+  t = threading.Thread(target=run)
+  t.start()
+  t.join()
+  if box:
+    raise box[0]
+
+
 def _state(cfg):
   return (dict(cfg.__arguments__),
           {k: frozenset(v) for k, v in cfg.__argument_tags__.items()},
@@ -209,7 +228,7 @@ def _check(case, out, stack):
         max_seq = max(max_seq, e.sequence_id)
   dirty = [set(), set()]       # keys edited while suspended (value)
   dirty_tags = [set(), set()]
-  shifted = suspended_edit = tag_edit = False
+  shifted = suspended_edit = tag_edit = threaded = False
 
   for oi, op in enumerate(case['ops']):
     c = op['c']
@@ -217,12 +236,17 @@ def _check(case, out, stack):
     before = [_state(cfg) for cfg in cfgs]
     old_cfg = cfgs[c]
     depth_before = len(stack)
+    in_thread = bool(op.get('thread')) and not stack
     try:
-      _do_op(cfgs, op, stack)
+      if in_thread:
+        _in_thread(lambda: _do_op(cfgs, op, stack))
+        threaded = True
+      else:
+        _do_op(cfgs, op, stack)
       raised = None
     except Exception as e:  # pylint: disable=broad-except
       raised = e
-    feat = k
+    feat = k + (':thread' if in_thread else '')
     if k in ('suspend_enter', 'suspend_exit'):
       # tracking flag must follow the nesting model
       want = len(stack) == 0
@@ -289,7 +313,7 @@ def _check(case, out, stack):
     for e in all_new:
       if e.location.filename != _THIS_FILE:
         # recorded, but the history keeps being judged (the tag APIs are a listed known finding)
-        out.add('entry-located-in-fiddle-internals', 'location', '', feat,
+        out.add('entry-located-in-fiddle-internals', 'location', '', k,
                 f'op {oi} {op}: {e.location}')
         break
     for key in changed:
@@ -381,6 +405,8 @@ def _check(case, out, stack):
         out.add('history-influences-build', 'mismatch', '', '', repr(cfg)[:300])
   if shifted:
     out.cls('varargs_shift')
+  if threaded:
+    out.cls("threaded_edit")
   if suspended_edit:
     out.cls('suspended_edit')
   if tag_edit:
